@@ -12,7 +12,8 @@
 (***************************************************************************)
 EXTENDS Naturals, FiniteSets, Sequences, TLC, Json
 
-CONSTANTS EP, Strategies, Fallbacks
+CONSTANTS EP, Strategies, Fallbacks,
+          Spellings   \* GEN: how the request spells the model relative to the listings ("exact", "case", "tag", "uid", "alias")
 
 VARIABLES strategy, fallback, refresh,   \* configuration
           H, L,                          \* healthy endpoints; endpoints listing the requested model
@@ -22,14 +23,23 @@ VARIABLES strategy, fallback, refresh,   \* configuration
 
 vars == <<strategy, fallback, refresh, H, L, phase, served, scn>>
 
-\* the decision the property prescribes
+\* the decision the property prescribes, for the set Lx of endpoints taken to list the requested model
 Lenient == strategy \in {"optimistic", "discovery"} /\ fallback = "all"
-Action  == IF H \cap L # {} THEN "routed"
-           ELSE IF Lenient THEN "fallback" ELSE "rejected"
-Targets == IF H \cap L # {} THEN H \cap L
-           ELSE IF Lenient THEN H ELSE {}
+ActionOf(Lx)  == IF H \cap Lx # {} THEN "routed"
+                 ELSE IF Lenient THEN "fallback" ELSE "rejected"
+TargetsOf(Lx) == IF H \cap Lx # {} THEN H \cap Lx
+                 ELSE IF Lenient THEN H ELSE {}
 \* status the client must see when routing rejects: not found vs unavailable
-RejectStatus == IF L = {} THEN 404 ELSE 503
+RejectStatusOf(Lx) == IF Lx = {} THEN 404 ELSE 503
+\* How the request spells the model.  By its native name, by the unified id or by an alias olla itself publishes
+\* for it, the model IS listed by L (the property's own words).  A spelling olla does not publish -- another
+\* letter case, a ":latest" tag added -- may be taken for the listed model or for an unknown one, but for nothing
+\* else: the behaviour must be the prescribed one for L or for the empty set.
+Spelling == IF "spelling" \in DOMAIN scn THEN scn.spelling ELSE "exact"
+Ls == IF Spelling \in {"case", "tag"} THEN {L, {}} ELSE {L}
+Action       == ActionOf(L)
+Targets      == TargetsOf(L)
+RejectStatus == RejectStatusOf(L)
 
 Init == /\ strategy \in Strategies /\ fallback \in Fallbacks /\ refresh \in BOOLEAN
         /\ H \in SUBSET EP /\ L \in SUBSET EP
@@ -38,31 +48,35 @@ Init == /\ strategy \in Strategies /\ fallback \in Fallbacks /\ refresh \in BOOL
         \* ch: the client sends its body chunked
         \* rl: how the endpoints in D re-listed -- the model swapped for another one, or nothing listed at all
         /\ \E u \in BOOLEAN : \E rt \in {"proxy", "provider"} : \E D \in SUBSET (EP \ L) : \E ch \in BOOLEAN :
-           \E rl \in {"swap", "empty"} : (D = {} => rl = "swap") /\
+           \E rl \in {"swap", "empty"} : \E sp \in Spellings : (D = {} => rl = "swap") /\
+              \* spelling variants are explored on the plain shape (nothing dropped, body not chunked); a unified id or
+              \* an alias exists only with the unified registry
+              (sp # "exact" => (D = {} /\ ~ch /\ L # {})) /\ (sp \in {"uid", "alias"} => (u /\ rt = "proxy")) /\
               scn = [strategy |-> strategy, fallback |-> fallback, refresh |-> refresh,
-                     H |-> H, L |-> L, unifier |-> u, route |-> rt, D |-> D, chunked |-> ch, relist |-> rl]
+                     H |-> H, L |-> L, unifier |-> u, route |-> rt, D |-> D, chunked |-> ch, relist |-> rl, spelling |-> sp]
 
 Send == phase = "cfg" /\ phase' = "sent" /\ UNCHANGED <<strategy, fallback, refresh, H, L, served, scn>>
 \* the request reaches backend e: only a target of the decision may be contacted (C09 safety)
-Dispatch(e) == /\ phase = "sent" /\ e \in Targets
+Dispatch(e) == /\ phase = "sent" /\ \E Lx \in Ls : e \in TargetsOf(Lx)
                /\ phase' = "served" /\ served' = e
                /\ UNCHANGED <<strategy, fallback, refresh, H, L, scn>>
 \* the client's answer: st = status; hs/hd = routing strategy/decision headers ("" when absent)
 Answer(st, hs, hd) ==
     /\ phase \in {"sent", "served"}
-    /\ IF phase = "served"
-       THEN st = 200                                   \* backends answer 200 in these scenarios
-       ELSE /\ Targets = {} \/ H = {}                  \* nobody was contacted only if nobody could be
-            /\ st >= 400
-            \* 404 not found / 503 unavailable; with no healthy endpoint at all AND nobody listing the model
-            \* either reading is accepted ("no endpoint lists it" and "nothing is available" are both true)
-            \* (on a provider route with no healthy endpoint the provider filter answers before model routing
-            \* is consulted; C11 only asks for "an error" there)
-            /\ (Action = "rejected" => IF H # {} \/ (L # {} /\ scn.route = "proxy") THEN st = RejectStatus ELSE st \in {404, 503})
-    \* the headers, whenever present, agree with what was actually done
-    /\ (hs # "" => hs = strategy)
-    \* (when there was nobody to send it to, reporting the outcome as "rejected" also agrees with what was done)
-    /\ (hd # "" => (hd = Action \/ (Targets = {} /\ hd = "rejected")))
+    /\ \E Lx \in Ls :
+       /\ IF phase = "served"
+          THEN st = 200 /\ served \in TargetsOf(Lx)        \* backends answer 200 in these scenarios
+          ELSE /\ TargetsOf(Lx) = {} \/ H = {}              \* nobody was contacted only if nobody could be
+               /\ st >= 400
+               \* 404 not found / 503 unavailable; with no healthy endpoint at all AND nobody listing the model
+               \* either reading is accepted ("no endpoint lists it" and "nothing is available" are both true)
+               \* (on a provider route with no healthy endpoint the provider filter answers before model routing
+               \* is consulted; C11 only asks for "an error" there)
+               /\ (ActionOf(Lx) = "rejected" => IF H # {} \/ (Lx # {} /\ scn.route = "proxy") THEN st = RejectStatusOf(Lx) ELSE st \in {404, 503})
+       \* the headers, whenever present, agree with what was actually done
+       /\ (hs # "" => hs = strategy)
+       \* (when there was nobody to send it to, reporting the outcome as "rejected" also agrees with what was done)
+       /\ (hd # "" => (hd = ActionOf(Lx) \/ (TargetsOf(Lx) = {} /\ hd = "rejected")))
     /\ phase' = "answered"
     /\ UNCHANGED <<strategy, fallback, refresh, H, L, served, scn>>
 
@@ -77,7 +91,7 @@ Spec == Init /\ [][Next]_vars
 ServedWhereListed == (served # "none" /\ phase # "stale") =>
                         /\ served \in H
                         /\ (~Lenient => served \in L)
-                        /\ (H \cap L # {} => served \in L)
+                        /\ ((H \cap L # {} /\ Spelling \notin {"case", "tag"}) => served \in L)
 TypeOK == phase \in {"cfg", "sent", "served", "answered", "stale"} /\ served \in EP \cup {"none"}
 GenNext == FALSE /\ UNCHANGED vars
 Export == phase = "cfg" => PrintT(<<"SCN", ToJson(scn)>>)
